@@ -410,20 +410,31 @@ fn cases_plain(tier: Tier) -> Vec<Case> {
         let legal = cfg.lanes.clone();
         let chip_ids = |id: u8| -> Vec<u8> { if (id >> 3) & 1 == 0 { (0..7).collect() } else { (8..15).collect() } };
         for (xi, x) in legal.iter().enumerate() {
-            for second in 0..2u8 {
+            for second in 0..3u8 {
                 let normal = |skip: &[u8]| -> Vec<LaneSpec> { legal.iter().filter(|id| !skip.contains(id)).map(|id| ob_lane(*id, 0x22, &[ha[0]], &chip_ids(*id))).collect() };
                 let mut f0 = normal(&[]);
                 f0[xi] = LaneSpec { id: *x, chips: vec![], prefix: vec![alpide::APE_DET_TIMEOUT] };
                 let other = legal[(xi + 3) % legal.len()];
-                let f1 = if second == 0 { normal(&[*x]) } else { normal(&[*x, other]) };
+                // second == 2: the lane that announced the fatal state is back with ordinary data and ANOTHER lane, which
+                // never announced anything, is missing: fewer lanes than documented, and not "only by lanes that
+                // announced a fatal state" - whatever a returning lane counts for, the missing one is not excused
+                let f1 = match second {
+                    0 => normal(&[*x]),
+                    1 => normal(&[*x, other]),
+                    _ => normal(&[other]),
+                };
                 let f2 = normal(&[*x]);
                 let mk = |lanes: Vec<LaneSpec>| FrameSpec { lanes, nodata_before: false, split: None };
                 let mut w1 = BTreeSet::new();
-                if second == 1 {
+                if second >= 1 {
                     w1.insert("E73".to_string());
                 }
                 v.push(Case {
-                    label: format!("layer {layer} lane {x:#04x} fatal in frame 0, frame 1 without it{}", if second == 1 { " and without another lane" } else { "" }),
+                    label: if second == 2 {
+                        format!("{EXCUSED_MARK} layer {layer} lane {x:#04x} fatal in frame 0, frame 1 with it again but without lane {other:#04x}")
+                    } else {
+                        format!("layer {layer} lane {x:#04x} fatal in frame 0, frame 1 without it{}", if second == 1 { " and without another lane" } else { "" })
+                    },
                     cfg: cfg.clone(),
                     key: stave_key(),
                     frames: vec![mk(f0), mk(f1), mk(f2)],
@@ -617,6 +628,10 @@ fn cases_plain(tier: Tier) -> Vec<Case> {
     v
 }
 
+/// Marks the middle/outer-barrel cases in which a lane that never announced a fatal state is missing while a lane that
+/// did announce one is present (their own signature: known finding F20).
+const EXCUSED_MARK: &str = "[missing lane beside a returned fatal lane]";
+
 fn run_case(c: &Case) -> Vec<(String, String)> {
     let b = build(&c.cfg, &c.frames);
     let o = observe(&c.key, &b);
@@ -632,6 +647,7 @@ fn run_case(c: &Case) -> Vec<(String, String)> {
             let missed: Vec<&String> = w.difference(&got).collect();
             let extra: Vec<&String> = got.difference(w).collect();
             let kind = if !missed.is_empty() { format!("missed:{}", missed[0]) } else { format!("false-alarm:{}", extra[0]) };
+            let kind = if c.label.contains(EXCUSED_MARK) && kind == "missed:E73" { "missed:E73:missing-lane-excused-by-the-fatal-state-of-another-lane".to_string() } else { kind };
             out.push((format!("frame:{kind}"), format!("frame {fi} at {:#x}: documented rules give {:?}, reported at the frame start {:?}; other messages {:?} [{}]", b.starts[fi], w, got, o.other.iter().take(2).collect::<Vec<_>>(), c.label)));
         }
     }
